@@ -101,7 +101,7 @@ func C11(c *ev.Ctx) {
 	c.Cov.Evaluations = int64(len(cases))
 	c.Cov.DistinctNontrivial = int64(len(combos))
 	c.Cov.Exhaustive = true
-	c.Cov.Rule = "full product of builder inputs: operation type x 5 key types / signature algorithms x SHA-256/SHA-512 x window (none, anchorFrom only, from+until) x patch list class (one patch, two patches, opaque document / JSON patch) x anchor origin (none, string, object) x signing-key nonce; each request is built by the real client library, parsed by a real parser whose protocol enables exactly that algorithm, compared field by field with the inputs, then anchored inside its window and resolved by the real processor; the result must equal the SidetreeCore state change computed by TLC and carry the anchor origin the create / recover supplied (the DID's previous one after an update). Non-trivial count: distinct (type, key type, hash) combinations."
+	c.Cov.Rule = "full product of builder inputs: operation type x 5 key types / signature algorithms x SHA-256/SHA-512 x window (none, anchorFrom only, from+until, anchored exactly at the first / last second of the declared or default window) x patch list class (one patch, two patches, opaque document / JSON patch) x anchor origin (none, string, object) x signing-key nonce; each request is built by the real client library, parsed by a real parser whose protocol enables exactly that algorithm, compared field by field with the inputs, then anchored inside its window and resolved by the real processor; the result must equal the SidetreeCore state change computed by TLC and carry the anchor origin the create / recover supplied (the DID's previous one after an update). Non-trivial count: distinct (type, key type, hash) combinations."
 	c.Finish("model_checking")
 }
 
@@ -147,6 +147,12 @@ func runClientCase(cs *clientCase) (string, interface{}) {
 		from = T - 100
 	case "fromUntil":
 		from, until = T-100, T+1000
+	case "untilExact": // anchored in the last second of the window
+		from, until = T-100, T
+	case "fromExact": // anchored in the first second of the window
+		from, until = T, T+1000
+	case "fromOnlyEdge": // only anchorFrom declared; anchored in the last second of the default window
+		from = T - int64(params.MaxOperationTimeDelta)
 	}
 	var patches []patch.Patch
 	opaque := ""
@@ -158,10 +164,12 @@ func runClientCase(cs *clientCase) (string, interface{}) {
 		patches = append(concr.DeltaPatches("ok", 20), svc)
 	case "opaque":
 		if cs.C.Ty == "U" {
-			jp, _ := patch.NewJSONPatch(`[{"op":"add","path":"/extra","value":{"a":[1,2,3]}}]`)
+			jp, _ := patch.NewJSONPatch(`[{"op":"add","path":"/extra","value":{"a":[1,2,3]}},{"op":"add","path":"/serviceCount","value":2},{"op":"add","path":"/publicKeys","value":"none"}]`)
 			patches = append(concr.DeltaPatches("ok", 20), jp)
 		} else {
-			opaque = fmt.Sprintf(`{"publicKey":%s,"service":[{"id":"svc1","type":"LinkedDomains","serviceEndpoint":"https://example.com/x"}]}`, concr.KeyPatchJSON(20))
+			// besides keys and services: members whose names need JSON-pointer escaping, and members whose names merely
+			// start like a protected section
+			opaque = fmt.Sprintf(`{"publicKey":%s,"service":[{"id":"svc1","type":"LinkedDomains","serviceEndpoint":"https://example.com/x"}],"https://schema.org/name":"Alice","a~1b":1,"serviceCount":2,"publicKeys":"none"}`, concr.KeyPatchJSON(20))
 		}
 	}
 	var origin interface{}
@@ -282,6 +290,18 @@ func runClientCase(cs *clientCase) (string, interface{}) {
 	}
 	if !got.Equal(cs.Out.View) {
 		return "effect-differs-from-spec", map[string]interface{}{"observed": got, "request": string(req)}
+	}
+	// opaque members must arrive in the resolved document
+	if rerr == nil && cs.C.Patches == "opaque" && cs.C.Ty != "D" {
+		want := map[string]interface{}{"serviceCount": float64(2), "publicKeys": "none"}
+		if cs.C.Ty != "U" {
+			want["https://schema.org/name"], want["a~1b"] = "Alice", float64(1)
+		}
+		for k, v := range want {
+			if !reflect.DeepEqual(rm.Doc[k], v) {
+				return "effect-opaque-member-lost", map[string]interface{}{"member": k, "expected": v, "observed": rm.Doc[k], "request": string(req)}
+			}
+		}
 	}
 	// the anchor origin is part of the state a create / recover sets (an update leaves the DID's origin alone)
 	if rerr == nil {
